@@ -9,6 +9,7 @@ mod alloc;
 mod canon;
 mod net;
 mod reader;
+mod small;
 mod valve;
 
 use std::io::{BufRead, Write};
@@ -23,6 +24,7 @@ fn entries() -> Vec<(&'static str, EntryFn)> {
     let mut v: Vec<(&'static str, EntryFn)> = Vec::new();
     v.extend(reader::entries());
     v.extend(valve::entries());
+    v.extend(small::entries());
     v
 }
 
